@@ -4,7 +4,7 @@
    with [Print Assumptions] beneath.  The models read their literals and
    element-type tables from Gen/FormatsGen.v, Gen/MeditGen.v (regenerated from
    the Rust source on every run). *)
-From Coupe Require Import Lib.Prelude Model.Formats Model.MeditTypes Gen.MeditGen Model.Medit
+From Coupe Require Import Lib.Prelude Gen.FormatsGen Model.Formats Model.MeditTypes Gen.MeditGen Model.Medit
   Proofs.FormatsProofs Proofs.MeditBinProofs Proofs.MeditAsciiProofs Proofs.C19Examples.
 Open Scope N_scope.
 
@@ -49,6 +49,18 @@ Proof. exact weight_empty_float_reads_as_int. Qed.
 Theorem weight_read_terminates : forall s, read_weights s <> FOutOfFuel.
 Proof. exact read_weights_terminates. Qed.
 Print Assumptions weight_read_terminates.
+
+(* ---------------------------------------------------------------- width of the header arithmetic *)
+
+(* The models compute sizes on unbounded integers (`criterion_count * 8`, counts as full u64).
+   The translator fingerprints the corresponding source lines on every run: the u16 criterion
+   count is widened to usize where it is decoded, the row buffer is `vec![0; criterion_count * 8]`,
+   and read / read_inner / write_inner (resp. partition::read / write) contain no shift, no
+   narrowing cast other than `u16::to_le_bytes(criterion_count as u16)`, no wrapping arithmetic. *)
+Theorem weight_rowsize_tie : Gen.FormatsGen.weight_rowsize_fingerprint = true.
+Proof. exact eq_refl. Qed.
+Theorem partition_width_tie : Gen.FormatsGen.part_width_fingerprint = true.
+Proof. exact eq_refl. Qed.
 
 (* ---------------------------------------------------------------- MEDIT binary *)
 
